@@ -22,7 +22,11 @@ pub struct CaseResult {
 
 pub fn run_sweep(args: &Args, ev: &mut Ev, cases: &[Case], check: &(dyn Fn(&Case) -> CaseResult + Sync)) -> Vec<Violation> {
     let deadline = Instant::now() + Duration::from_secs_f64(args.budget_s);
+    let t_sweep = Instant::now();
     let (res, done) = pmap(cases, args.threads, Some(deadline), |c| check(c));
+    if std::env::var("WCHECK_TIMING").is_ok() {
+        eprintln!("timing: case construction done at {:.2}s, sweep of {} cases took {:.2}s", ev.t0.elapsed().as_secs_f64() - t_sweep.elapsed().as_secs_f64(), cases.len(), t_sweep.elapsed().as_secs_f64());
+    }
     if done < cases.len() {
         ev.cap_hit = true;
         ev.note(format!("wall cap {}s hit: {} of {} cases explored", args.budget_s, done, cases.len()));
